@@ -88,6 +88,15 @@ def timed_cases(ctx, thorough):
         by.setdefault(shape(c), []).append(c)
     per = 12 if thorough else 3
     chosen = [c for k in sorted(by) for c in by[k][:per]]
+    # behaviours whose last commit is a write that times out: nothing after it re-delivers the latest value to a
+    # subscriber the timed-out send did not reach, so these are the ones that show it
+    def last_commit_times_out(c):
+        commits = [s["p"] for s in c["sched"] if s["a"] == "TakeSer"]
+        return bool(commits) and any(s["a"] == "Timeout" and s["p"] == commits[-1] for s in c["sched"])
+    extra = [c for c in cases if last_commit_times_out(c) and c not in chosen][:(24 if thorough else 8)]
+    chosen += extra
+    # every behaviour runs with the onlooker registered before and after the subscriber under test
+    chosen = [dict(c, onlookerFirst=f) for c in chosen for f in (True, False)]
     ctx.cov["timed_behaviour_shapes"] = len(by)
     if len(chosen) < 10 or not any(shape(c)[0] for c in chosen):
         raise vf.Inconclusive("only %d timed behaviours (%d shapes) generated" % (len(chosen), len(by)))
